@@ -507,6 +507,8 @@ fn check_stmt_requires_semicolon(
 
 /// Formats a block node. Note: the given shape to the block formatter should already be at the correct indentation level
 pub fn format_block(ctx: &Context, block: &Block, shape: Shape) -> Block {
+    #[cfg(feature = "verif")]
+    crate::verif::tick();
     let mut ctx = *ctx;
     let mut formatted_statements: Vec<(Stmt, Option<TokenReference>)> = Vec::new();
     let mut found_first_stmt = false;
@@ -528,6 +530,12 @@ pub fn format_block(ctx: &Context, block: &Block, shape: Shape) -> Block {
 
         // If we have a semicolon, we need to push all the trailing trivia from the statement
         // and move it to the end of the semicolon
+        #[cfg(feature = "verif")]
+        crate::verif::event(
+            "block.semi",
+            semi.is_some() as u32,
+            check_stmt_requires_semicolon(&stmt, stmt_iterator.peek()) as u32,
+        );
         let semicolon = match check_stmt_requires_semicolon(&stmt, stmt_iterator.peek()) {
             true => {
                 let (updated_stmt, trivia) = trivia_util::get_stmt_trailing_trivia(stmt);
